@@ -306,7 +306,7 @@ func c12RangeAgreement(r *core.Run, p *core.Prog) {
 	fL := p.FieldObj(pkgGoDB, "DBWorkManager", "tLastCovered")
 	var cond ast.Expr
 	core.Walk(f.Decl.Body, false, func(x ast.Node) bool {
-		if ifs, ok := x.(*ast.IfStmt); ok && cond == nil && core.MentionsField(info, ifs.Cond, fF) && core.MentionsField(info, ifs.Cond, fL) {
+		if ifs, ok := x.(*ast.IfStmt); ok && cond == nil && mentionsFieldR(info, f.Decl.Body, ifs.Cond, fF) && mentionsFieldR(info, f.Decl.Body, ifs.Cond, fL) {
 			if len(ifs.Body.List) == 1 {
 				if b, ok := ifs.Body.List[0].(*ast.BranchStmt); ok && b.Tok == token.CONTINUE {
 					cond = ifs.Cond
@@ -324,22 +324,49 @@ func c12RangeAgreement(r *core.Run, p *core.Prog) {
 			if rf < 0 && rl > 0 {
 				continue // infeasible: first <= last
 			}
-			skip, decided := false, true
-			for _, d := range core.Conjuncts(cond, true) {
-				b, ok := core.BinOp(d, token.LSS, token.GTR, token.LEQ, token.GEQ)
-				if !ok || !strings.HasSuffix(core.Str(b.X), ".Timestamp") {
-					decided = false
-					continue
+			// evaluate the skip condition (any boolean combination of comparisons of the block timestamp with the two bounds,
+			// possibly hoisted into locals / a predicate helper) for this order type
+			var eval func(e ast.Expr, depth int) (bool, bool)
+			eval = func(e ast.Expr, depth int) (bool, bool) {
+				if depth > 8 {
+					return false, false
 				}
-				switch core.SelField(info, b.Y) {
-				case fF:
-					skip = skip || relHolds(rf, b.Op)
-				case fL:
-					skip = skip || relHolds(rl, b.Op)
-				default:
-					decided = false
+				e = ast.Unparen(resolveLocal(info, f.Decl.Body, ast.Unparen(e)))
+				switch x := e.(type) {
+				case *ast.UnaryExpr:
+					if x.Op == token.NOT {
+						v, ok := eval(x.X, depth+1)
+						return !v, ok
+					}
+				case *ast.BinaryExpr:
+					switch x.Op {
+					case token.LAND, token.LOR:
+						a, ok1 := eval(x.X, depth+1)
+						b, ok2 := eval(x.Y, depth+1)
+						if x.Op == token.LAND {
+							return a && b, ok1 && ok2
+						}
+						return a || b, ok1 && ok2
+					case token.LSS, token.GTR, token.LEQ, token.GEQ:
+						lhs, rhs, op := x.X, x.Y, x.Op
+						if !strings.HasSuffix(core.Str(lhs), ".Timestamp") {
+							lhs, rhs = rhs, lhs
+							op = map[token.Token]token.Token{token.LSS: token.GTR, token.GTR: token.LSS, token.LEQ: token.GEQ, token.GEQ: token.LEQ}[op]
+						}
+						if !strings.HasSuffix(core.Str(lhs), ".Timestamp") {
+							return false, false
+						}
+						switch core.SelField(info, rhs) {
+						case fF:
+							return relHolds(rf, op), true
+						case fL:
+							return relHolds(rl, op), true
+						}
+					}
 				}
+				return false, false
 			}
+			skip, decided := eval(cond, 0)
 			want := rf < 0 || rl > 0
 			r.Check(rule, fmt.Sprintf("query-filter:block-%s-first-%s-last", relName[rf], relName[rl]), p.Rel(cond.Pos()), decided && skip == want,
 				fmt.Sprintf("a block %s the first and %s the last covered time is skipped=%v by the query; the listing subtracts it iff it is before first or after last (%v)", relName[rf], relName[rl], skip, want))
